@@ -122,11 +122,30 @@ def run_custom_graph(plan: dict, out: dict, log: EventLog) -> None:
     torch.manual_seed(plan["gseed"])
     names = sorted(state.dag.variables)
     pattern = []
+    mst = Stream(plan["gseed"], "manual")
     for si in range(plan["steps"]):
         if plan["read_between"]:
             state["n_informative_ind"]      # (row-wise reads are cached before the proposal, as a monitor would do)
-        sampler.sample(state, temperature_inv=1.0)
-        acc = sampler.acceptation_history[-1].bool()
+        if si % 3 == 2:
+            # a hand-driven Metropolis step through the public State API: proposal, reads, per-individual decision kept as a 0/1
+            # vector of some dtype ("subset = True <=> revert": any tensor of truth values)
+            old = state["tau"].clone()
+            prop = old + torch.tensor([[round(mst.normal() * plan["scale"] * 0.2, 3)] for _ in range(n)])
+            state["tau"] = prop
+            state["nll_attach_ind"]
+            rej = torch.tensor([mst.bernoulli(0.5) for _ in range(n)])
+            mdt = mst.choice([torch.bool, torch.uint8, torch.int64, torch.int32, torch.float32])
+            state.revert(rej.to(mdt))
+            C["probe.manual_step_mask_dtype." + str(mdt).split(".")[-1]] += 1
+            exp_tau = torch.where(rej.unsqueeze(-1), old, prop)
+            if not same(state["tau"], exp_tau):
+                violation(out, "latent_value_after_step", f"latent_differs_from_accept_reject_reference:ind:custom_graph:mask_{str(mdt).split('.')[-1]}",
+                          f"step{si}: rejected {rej.tolist()}: {describe_diff(state['tau'], exp_tau)}")
+                break
+            acc = ~rej
+        else:
+            sampler.sample(state, temperature_inv=1.0)
+            acc = sampler.acceptation_history[-1].bool()
         pattern.append("".join("a" if a else "r" for a in acc.tolist()))
         if 0 < int(acc.sum()) < n:
             C["probe.partial_reject_mixed"] += 1
